@@ -7,6 +7,9 @@ pub mod payload;
 pub mod props;
 pub mod rt;
 
+#[global_allocator]
+static GLOBAL: rt::TrackingAlloc = rt::TrackingAlloc;
+
 use common::driver::{self, CaseOut, Engine, ParentCfg};
 use common::ops::*;
 use proptest::prelude::*;
